@@ -962,7 +962,8 @@ def run_xpath(case, cx):
         bad = [o for o in CMP_OPS if got_map[o] != exp_map[o]]
         if bad:
             key = cmp_key(kind, a, b, exp_map, got_map, xsd)
-            if rel == 'mixed' and implicit and got_map == model_cmp(a, b, 0):
+            if rel == 'mixed' and implicit and got_map == model_cmp(a, b, 0) and \
+                    key != 'C11/compare/year-field-ordered-before-instant':
                 key = 'C11/compare/implicit-timezone-ignored'
             elif rel == 'mixed' and key.startswith('C11/compare/tz-'):
                 key += '/implicit'
